@@ -1320,8 +1320,9 @@ func capturedFieldAlias(c *Ctx, v *types.Var) (ast.Expr, *core.Frame, bool) {
 		if !ok {
 			break
 		}
-		if fieldVar(sel, &core.Frame{Pkg: d.Pkg}) == nil {
-			return nil, nil, false
+		fv := fieldVar(sel, &core.Frame{Pkg: d.Pkg})
+		if fv == nil || !fieldNeverReassigned(c, fv) {
+			return nil, nil, false // a field that is written after construction: the captured copy can be stale
 		}
 		e = unparen(sel.X)
 		depth++
@@ -1331,4 +1332,53 @@ func capturedFieldAlias(c *Ctx, v *types.Var) (ast.Expr, *core.Frame, bool) {
 	}
 	memo[v] = rhs
 	return rhs, &core.Frame{Pkg: d.Pkg}, true
+}
+
+// fieldNeverReassigned: no function of the field's package assigns the field (x.f = …, x.f++, &x.f);
+// it is only given a value in composite literals.
+func fieldNeverReassigned(c *Ctx, fv *types.Var) bool {
+	key := "fieldConst"
+	if c.cache[key] == nil {
+		c.cache[key] = map[*types.Var]bool{}
+	}
+	memo := c.cache[key].(map[*types.Var]bool)
+	fv = fv.Origin()
+	if r, ok := memo[fv]; ok {
+		return r
+	}
+	res := true
+	for _, d := range c.Prog.Funcs {
+		if d.Decl.Body == nil || d.Pkg.Types != fv.Pkg() {
+			continue
+		}
+		fr := &core.Frame{Pkg: d.Pkg}
+		is := func(e ast.Expr) bool {
+			x := fieldVar(e, fr)
+			return x != nil && x.Origin() == fv
+		}
+		ast.Inspect(d.Decl.Body, func(n ast.Node) bool {
+			switch s := n.(type) {
+			case *ast.AssignStmt:
+				for _, l := range s.Lhs {
+					if is(l) {
+						res = false
+					}
+				}
+			case *ast.IncDecStmt:
+				if is(s.X) {
+					res = false
+				}
+			case *ast.UnaryExpr:
+				if s.Op == token.AND && is(s.X) {
+					res = false
+				}
+			}
+			return res
+		})
+		if !res {
+			break
+		}
+	}
+	memo[fv] = res
+	return res
 }
